@@ -151,3 +151,36 @@ def scratch_root():
             os.makedirs(d, exist_ok=True)
             return d
     raise RuntimeError('no scratch directory')
+
+
+# ---------------------------------------------------------------------------------------
+# known findings (read-only at run time)
+
+_FINDINGS = None
+
+
+def load_findings():
+    global _FINDINGS
+    if _FINDINGS is None:
+        import json
+        p = os.path.join(VERIF_DIR, 'known_findings.json')
+        if os.path.exists(p):
+            with open(p) as f:
+                _FINDINGS = json.load(f).get('findings', [])
+        else:
+            _FINDINGS = []
+    return _FINDINGS
+
+
+def match_finding(prop, kind, facts):
+    """Open finding whose mechanism predicate (property, kind, listed facts) this violation
+    satisfies, or None.  Matching is by mechanism only, never by seed or hash."""
+    for f in load_findings():
+        if f.get('status') != 'open' or f.get('property') != prop:
+            continue
+        m = f.get('match', {})
+        if m.get('kind') != kind:
+            continue
+        if all((facts or {}).get(k) == v for k, v in m.get('facts', {}).items()):
+            return f
+    return None
